@@ -142,7 +142,7 @@ def run_entry(entry, X, metric_name, rng, p, calls):
     if entry == 'km_cold':
         return do(kmedoids.kmedoids, X, m, n_clusters=k, n_iters=iters,
                   random_state=seed), k
-    inds = rng.choice(n, size=k, replace=False)
+    inds = rng.choice(n, size=min(k, n), replace=False)
     if entry == 'km_warm_inds':
         form = [np.array, list][int(rng.integers(0, 2))]
         return do(kmedoids.kmedoids,
@@ -221,6 +221,12 @@ def run_case(ctx, kind, rng, idx):
         int(rng.integers(0, 3))]
     entry = ENTRIES[int(rng.integers(0, len(ENTRIES)))]
     k = int(rng.integers(1, min(n, 12) + 1))
+    over = False
+    if n <= 40 and entry in ('kc_n', 'kc_both', 'KC_est', 'hy_fn', 'HY_est') \
+            and rng.random() < 0.08:
+        # more clusters requested than there are frames: every frame
+        # becomes a center and the search stops there
+        k, over = n + int(rng.integers(1, 4)), True
     ref = cc.ref_metric(metric_name)
     diam = float(ref(X, X[0]).max())
     # random partition of the frames into "trajectories"
@@ -246,6 +252,10 @@ def run_case(ctx, kind, rng, idx):
         ctx.crash('cluster.%s.raised' % entry, e)
         return
     ctx.count('results_checked')
+    if over:
+        ctx.count('more_clusters_than_frames')
+        if expect_k is not None:
+            expect_k = n
     if p.get('params_changed'):
         ctx.violation('cluster.%s.fit-rewrites-parameter' % entry,
                       'fit() changed a constructor parameter of the estimator')
